@@ -74,6 +74,20 @@ func c06Inputs() []c06Input {
 	in = append(in, c06Input{Name: "performance-twins-print", Files: perfTwins, Args: []string{"print", "root.knut"}})
 	in = append(in, c06Input{Name: "ties-weights-three-dates", Files: map[string]string{"j.knut": ties + jr.RenderAll([]jr.Dir{jr.P("2020-02-01", "USD", "1", "CHF"), jr.P("2020-02-02", "USD", "1", "CHF")})},
 		Args: []string{"portfolio", "weights", "-v", "CHF", "--color=false", "--days", "--from", "2020-01-31", "j.knut"}})
+	// sibling accounts whose valued totals are exactly equal but made of decimals that are
+	// inexact in binary and arrive in different orders (a weight summed in floating point
+	// would depend on summation order)
+	floatTies := opens + jr.RenderAll([]jr.Dir{
+		jr.P("2020-01-01", "USD", "1", "CHF"), jr.P("2020-01-01", "EUR", "1", "CHF"), jr.P("2020-01-01", "AAPL", "1", "CHF"),
+		jr.T("2020-01-30", "a", jr.B(accOpening, accChecking, "0.1", "USD"), jr.B(accOpening, accSavings, "0.3", "USD")),
+		jr.T("2020-02-28", "b", jr.B(accOpening, accChecking, "0.2", "USD"), jr.B(accOpening, accSavings, "0.2", "USD")),
+		jr.T("2020-03-30", "c", jr.B(accOpening, accChecking, "0.3", "USD"), jr.B(accOpening, accSavings, "0.1", "USD")),
+		jr.T("2020-03-30", "d", jr.B(accOpening, accFood, "0.1", "USD"), jr.B(accOpening, accFood, "0.2", "EUR"), jr.B(accOpening, accFood, "0.3", "AAPL")),
+		jr.T("2020-03-30", "e", jr.B(accOpening, "Expenses:Rent:Flat", "0.3", "USD"), jr.B(accOpening, "Expenses:Rent:Flat", "0.2", "EUR"), jr.B(accOpening, "Expenses:Rent:Flat", "0.1", "AAPL")),
+	})
+	for _, a := range [][]string{{"balance", "--color=false", "-v", "CHF", "--months", "--diff"}, {"balance", "--color=false", "-v", "CHF"}} {
+		in = append(in, c06Input{Name: "float-ties-" + strings.Join(a[3:], "_"), Files: map[string]string{"j.knut": floatTies}, Args: append(append([]string(nil), a...), "j.knut")})
+	}
 	// infer with two equally likely candidates
 	training := "2020-01-01 open Assets:A\n2020-01-02 \"shop\"\nAssets:A Expenses:Food 10 CHF\n\n2020-01-03 \"shop\"\nAssets:A Expenses:Rent 10 CHF\n\n"
 	target := "2020-02-01 \"shop\"\nAssets:A Expenses:TBD 10 CHF\n\n2020-02-02 \"other\"\nExpenses:TBD Assets:A 5 CHF\n\n"
